@@ -16,6 +16,8 @@ import (
 	"path/filepath"
 	"sort"
 
+	"github.com/jf-tech/omniparser/idr"
+
 	"verifharness/cmd/c10/pipe"
 	"verifharness/vh"
 )
@@ -115,7 +117,7 @@ func main() {
 	r := vh.NewRng(o.Seed)
 	sum := vh.NewSummary("C15", o,
 		"(schema, input) pairs of the seven formats; each run twice, with the schema loaded again, after a random prefix of other transforms in the process, and in a fresh process; plus checksum sensitivity/equality cases; non-trivial = the compared run was preceded by >= 1 other transform in its process (prefix length >= 1); distinct by (schema, input)")
-	cw := vh.NewCaseWriter(o, "C15", "Model.Pipeline", "c15case", "check_c15")
+	cw := vh.NewCaseWriter(o, "C15", "Base.Tree Model.Pipeline", "c15case", "check_c15")
 	fmts := pipe.Formats()
 	pipe.Default()
 
@@ -159,7 +161,7 @@ func main() {
 		}
 	}
 
-	total := o.Count(260, 26000)
+	total := o.Count(400, 30000)
 	nproc := o.Count(20, 200)
 	if o.N > 0 {
 		nproc = 4
@@ -247,6 +249,21 @@ func main() {
 				map[string]string{"first": dump1, "second": dump2})
 		}
 		cw.Add("C15Det "+coqRuns([]pipe.Transcript{t1, t2, t3, t4}), map[string]interface{}{"case": cs, "kind": "in-process"})
+		// the checksum canon of the model (Model/Pipeline.v j2) against idr.J2NodeToInterface
+		if c%3 == 0 {
+			k := 0
+			comp.RawNodes(in, cs.Ext, func(n *idr.Node) {
+				if k < 2 && vh.TreeSize(n) <= 40 {
+					cw.Add("C15Canon "+vh.CoqTree(n)+" "+pipe.CoqJV(idr.J2NodeToInterface(n, true)),
+						map[string]interface{}{"case": cs, "kind": "canon", "record": k})
+					sum.Hist("canon-case:" + f.Name)
+					if f.Name != "json" && f.Name != "xml" {
+						cw.Add("C15Flat "+vh.CoqTree(n), map[string]interface{}{"case": cs, "kind": "flat-shape", "record": k})
+					}
+				}
+				k++
+			})
+		}
 		history = append(history, cs)
 		if len(history) > 40 {
 			history = history[1:]
